@@ -19,6 +19,7 @@ type WinCfg struct {
 	Groups int    `json:"groups"` // number of group values; group of row id = id mod Groups
 	Base   int64  `json:"base"`   // offset added to every timestamp, in ticks (multiple of size*slide)
 	Ahead  bool   `json:"ahead"`  // base := now+20h (event time legitimately ahead of the wall clock)
+	Idle   int64  `json:"idle"`   // IDLETIMEOUT in milliseconds (0: unset); such scenarios carry wall-clock times (µs) in add / deliver events
 }
 
 // WinStep is one scenario step.
@@ -29,6 +30,7 @@ type WinStep struct {
 	G   string `json:"g,omitempty"`
 	V   int64  `json:"v,omitempty"`
 	Fut int    `json:"fut,omitempty"` // 1: timestamp replaced by now+48h (far-future garbage)
+	Gap int64  `json:"gap,omitempty"` // add: milliseconds to sleep before the row is handed in (idle-timeout scenarios)
 }
 
 // WinScenario is one behaviour of the window model to replay on the real engine.
@@ -59,6 +61,9 @@ func WinSQL(c WinCfg) string {
 	with := fmt.Sprintf("TIMESTAMP='ts', TIMEUNIT='ms', MAXOUTOFORDERNESS='%s'", durStr(c.MOO, c.Unit))
 	if c.AL > 0 {
 		with += fmt.Sprintf(", ALLOWEDLATENESS='%s'", durStr(c.AL, c.Unit))
+	}
+	if c.Idle > 0 {
+		with += fmt.Sprintf(", IDLETIMEOUT='%dms'", c.Idle)
 	}
 	return "SELECT g, count(*) AS c, sum(v) AS s, collect(id) AS ids, window_start() AS ws, window_end() AS we FROM stream GROUP BY g, " + w + " WITH (" + with + ")"
 }
@@ -186,11 +191,16 @@ func runWin(sc WinScenario) (evs []Ev, inconclusive string) {
 	defer s.Stop()
 	w := s.Stream().Window
 	in.Bind(s.Stream(), w, FieldPtr(w, "watermark"))
-	in.Log(Ev{"tr": sc.Tr, "e": "reset", "kind": sc.Cfg.Kind, "size": sc.Cfg.Size, "slide": sc.Cfg.Slide, "moo": sc.Cfg.MOO, "al": sc.Cfg.AL, "free": b2i(sc.Free)})
+	in.Log(Ev{"tr": sc.Tr, "e": "reset", "kind": sc.Cfg.Kind, "size": sc.Cfg.Size, "slide": sc.Cfg.Slide, "moo": sc.Cfg.MOO, "al": sc.Cfg.AL, "free": b2i(sc.Free), "idle": sc.Cfg.Idle * 1000})
+	t00 := time.Now()
+	us := func() int64 { return int64(time.Since(t00) / time.Microsecond) }
 	s.AddSyncSink(func(rs []map[string]any) {
+		now := us()
 		rows := make([]Ev, 0, len(rs))
 		for _, r := range rs {
-			rows = append(rows, projectRow(r, sc.Cfg.Unit, sc.Cfg.Base))
+			pr := projectRow(r, sc.Cfg.Unit, sc.Cfg.Base)
+			pr["t"] = now
+			rows = append(rows, pr)
 		}
 		sort.Slice(rows, func(i, j int) bool { return rows[i]["g"].(string) < rows[j]["g"].(string) })
 		in.Log(Ev{"tr": sc.Tr, "e": "deliver", "rows": rows})
@@ -214,7 +224,10 @@ func runWin(sc WinScenario) (evs []Ev, inconclusive string) {
 			if v == 0 {
 				v = st.ID*3 + 1
 			}
-			in.Log(Ev{"tr": sc.Tr, "e": "add", "id": st.ID, "ts": st.Ts, "g": g, "v": v, "fut": st.Fut})
+			if st.Gap > 0 {
+				time.Sleep(time.Duration(st.Gap) * time.Millisecond)
+			}
+			in.Log(Ev{"tr": sc.Tr, "e": "add", "id": st.ID, "ts": st.Ts, "g": g, "v": v, "fut": st.Fut, "t": us()})
 			tsms := (st.Ts + sc.Cfg.Base) * sc.Cfg.Unit
 			if st.Fut == 1 {
 				tsms = time.Now().Add(40 * time.Hour).UnixMilli() // beyond now+MOO+24h, yet within 24h of an event time running 20h ahead
@@ -223,6 +236,9 @@ func runWin(sc WinScenario) (evs []Ev, inconclusive string) {
 			n := nAdd
 			if !in.WaitFor(T, func() bool { return in.C("proc.item") >= n }) {
 				return in.Events(), "add not processed"
+			}
+			if sc.Cfg.Idle > 0 {
+				in.Log(Ev{"tr": sc.Tr, "e": "added", "id": st.ID}) // the row has reached the window (and the watermark's idle clock)
 			}
 			if !sc.Burst && !in.WaitFor(T, delivered) { // late updates are sent from inside Add
 				return in.Events(), "late update not consumed"
@@ -264,6 +280,10 @@ func runWin(sc WinScenario) (evs []Ev, inconclusive string) {
 		// that did not fit into the full channel
 		in.Disarm()
 		time.Sleep(650 * time.Millisecond)
+	}
+	if sc.Cfg.Idle > 0 {
+		// let the source fall idle: the watermark ticker (200ms) then advances on processing time and flushes the open windows
+		time.Sleep(time.Duration(sc.Cfg.Idle)*time.Millisecond + 500*time.Millisecond)
 	}
 	if sc.Free {
 		// quiescence: all rows ingested, every sent watermark processed, all batches consumed
